@@ -262,6 +262,25 @@ def gen_case(rnd, spec):
             script.append(["thread", ops])
         script.append(["shutdown"])
         gen.setdefault("tags", []).append("shutdown_window")
+    # the runtime is not alone in its process: a second, independent runtime (a bare MetaRunner) runs beside it, or other
+    # service runners tried to accept and were refused - its payloads and the services created afterwards still all run in its loops
+    forced = spec.get("case_index") == 4 and spec.get("shard") in (0, 1, 2, 3)
+    if forced or rnd.random() < 0.12:
+        rival = ["runtime", "accepts"][spec.get("shard", 0) % 2] if forced else rnd.choice(["runtime", "accepts"])
+        pre = [["rival_runtime"]] if rival == "runtime" else []
+        if rival == "accepts":
+            for _ in range(rnd.choice([2, 3])):
+                pre += [["thread", [["second_accept"]]], ["wait_event", "raised", None, 0.5], ["sleep", 0.02]]
+        for fl in common.COROUTINE:
+            for _ in range(4):
+                s = {"id": new("latesvc"), "flavour": fl, "program": [["ctx"], ["crit", 300], ["sleep", 0.01], ["crit", 300], ["beat", 0.02, 10]]}
+                gen["services"].append(s)
+                pre += [["service", s["id"]], ["sleep", rnd.choice([0.0, 0.03, 0.06])]]
+            late = {"id": new("lateadopt"), "flavour": fl, "program": [["ctx"], ["crit", 300], ["sleep", 0.01], ["crit", 300]], "cleanup": {"kind": "none"}}
+            gen["payloads"].append(late)
+            pre.append(["adopt", late["id"]])
+        script[1:1] = pre
+        gen.setdefault("tags", []).append("rival_" + rival)
     gen["script"] = script
     return {"watchdog": 40, "inject": common.inject_conf(rnd, 0.7), "generations": [gen], "meta": {"direction": direction}}
 
@@ -434,7 +453,13 @@ def judge(case, run, result):
                 problems.append(("after thread payload %s failed while %s was still blocking, the %s heartbeat (period 10 ms) stood still for %.2f s before "
                                  "it was cancelled; the reference loop never paused longer than %.2f s" % (failed["pid"], "another thread payload", fl, gap, reference), None))
     for tag in gen.get("tags", []):
+        if tag == "rival_runtime" and not run.first("rival-running", gen=0):
+            continue  # planned, not observed
+        if tag == "rival_accepts" and len(run.of("raised", gen=0, op="second_accept")) < 2:
+            continue
         result.count("scenarios_with_%s" % tag)
+    for e in run.of("return", gen=0, op="second_accept"):
+        problems.append(("a second service runner was allowed to accept beside the running one", None))
     unexpected = [e for e in run.of("raised", gen=0, op="adopt") if not e["pid"].startswith(("nothread", "window"))]
     if unexpected:
         e = unexpected[0]
@@ -474,7 +499,7 @@ def finish(total, tier):
     need = ["synchronous_sections_checked", "blocking_thread_payloads_observed", "heartbeats_during_blocking", "scenarios_with_foreign_loop_submitter",
             "steps_adopted_threading", "sections_that_adopt_checked", "blocking_executes_observed", "scenarios_with_crowd", "scenarios_with_no_threads",
             "scenarios_with_parked_payloads_and_gc", "scenarios_with_thread_payload_adopted_again_while_running", "scenarios_with_compute_bound_thread_payload", "scenarios_with_adoption_of_16_blocking_thread_payloads_in_one_go", "callbacks_of_a_shipped_trio_service_checked", "scenarios_with_interrupt_in_a_thread_waiting_in_execute", "ends_by_thread_failure_beside_a_blocked_thread_checked", "compute_bound_thread_payloads_observed",
-            "scenarios_with_execute_from_foreign_trio_worker", "synchronous_first_sections_of_plain_callables_checked", "scenarios_with_shutdown_window", "payload_endings_checked"]
+            "scenarios_with_execute_from_foreign_trio_worker", "synchronous_first_sections_of_plain_callables_checked", "scenarios_with_shutdown_window", "payload_endings_checked", "scenarios_with_rival_runtime", "scenarios_with_rival_accepts"]
     need += ["steps_%s_%s" % (r, f) for r in ("adopted", "service", "executed") for f in common.COROUTINE]
     for name in need:
         if not total.counters.get(name) and not total.violations:
